@@ -137,7 +137,10 @@ def c08():
 
 @plan("C28")
 def c28():
-    return Check("C28", [Leg("lib-default", "c28", shards=(2, 8))])
+    return Check("C28", [
+        Leg("lib-default", "c28", shards=(2, 8)),
+        Leg("cli", "cli_c28", fn=_lazy("cli_locate"), label="cli:c28"),
+    ])
 
 
 META["C09"] = dict(
@@ -254,6 +257,60 @@ def c15():
 @plan("C24")
 def c24():
     return Check("C24", [Leg("cli", "cli_c24", fn=_lazy("cli_c24"))])
+
+
+META["C05"] = dict(
+    text="An independent byte-at-a-time state machine (standard and simple encodings) is the reference for IB words, BP words, lengths and final state of all eleven engine entry points (dispatcher, PFSM, scalar, SSE2, AVX2 x standard/simple) and of JsonIndex::build, on generated documents, mutants, soups, random bytes and a boundary sweep sliding 13 tokens through offsets 0..130 with each entering state. Counters prove every engine ran and every carry state crossed 16/32/64-byte edges. Miri base + avx2 in the thorough tier.",
+    note="NEON engines cannot run here. When closes outnumber opens the built index's BP is a prefix of the reference (documented), compared on the common prefix.",
+    technique=SAN + "engine differential anchored to a reference state machine + Miri")
+
+META["C06"] = dict(
+    text="Generated RFC 8259 documents (depth to 400+, all escape forms incl. surrogate pairs, every number shape, all four whitespace bytes in every gap, duplicate keys, empty containers, up to a few MB) are walked iteratively from the root; field order with duplicates, decoded strings, numbers, booleans/null, raw byte spans, parent/child/sibling round trips and last-duplicate lookup must equal the generator's ground truth (cross-checked with serde_json). Miri on small documents in the thorough tier.",
+    note="Ground truth by construction; serde_json disagreement marks a case generator-suspect (inconclusive).",
+    technique=SAN + "ground-truth-by-construction navigation monitor + Miri")
+
+META["C07"] = dict(
+    text="ib_rank1 for every position, ib_select1 and ib_select1_from for every k (incl. k >= ones, 2^32, usize::MAX) and every hint class must equal naive rank/select over the reference interest bits; every node's text_position must be its span start, cursor_at_offset / cursor_at_position must return the node with the greatest start not after the byte. Gallop classes are counted and required. Miri in the thorough tier.",
+    note="Reference interest bits come from the C05 reference state machine.",
+    technique=SAN + "reference-model monitor (rank/select + node positions) + Miri")
+
+META["C32"] = dict(
+    text="For generated valid documents the simple-cursor index must list exactly the bracket/comma/colon bytes outside strings in order, invert them, find every container's close and skip every value to the byte after it (ground truth from the generator's spans). Miri in the thorough tier.",
+    note="Engine differential for the simple encoding is C05's subject.",
+    technique=SAN + "ground-truth-by-construction monitor + Miri")
+
+
+@plan("C05")
+def c05():
+    return Check("C05", [
+        Leg("lib-default", "c05", shards=(4, 16)),
+        Leg("miri-base", "c05", shards=(1, 2), tiers=("thorough",), timeout=MIRI_T),
+        Leg("miri-avx2", "c05", shards=(1, 2), tiers=("thorough",), timeout=MIRI_T),
+    ])
+
+
+@plan("C06")
+def c06():
+    return Check("C06", [
+        Leg("lib-default", "c06", shards=(4, 16)),
+        Leg("miri-base", "c06", shards=(1, 2), tiers=("thorough",), timeout=MIRI_T),
+    ])
+
+
+@plan("C07")
+def c07():
+    return Check("C07", [
+        Leg("lib-default", "c07", shards=(4, 16)),
+        Leg("miri-base", "c07", shards=(1, 2), tiers=("thorough",), timeout=MIRI_T),
+    ])
+
+
+@plan("C32")
+def c32():
+    return Check("C32", [
+        Leg("lib-default", "c32", shards=(4, 16)),
+        Leg("miri-avx2", "c32", shards=(1, 1), tiers=("thorough",), timeout=MIRI_T),
+    ])
 
 
 def setup():
